@@ -303,7 +303,7 @@ PROPS = {
         known_findings={"scale_fixed_equals_primitive": ["c16::kf_c16_scale_fixed_equals_primitive_w64"]},
         explanation="harness-level contracts; reference encodings written from the format definitions",
         trusted=COMMON_TRUST + ["Kani stubs: alloc::fmt::format (error text), ptr_rotate / BytesMut::reserve_inner proved unreachable in c16_rlp_stream_w8"],
-        not_decided=["rlp crate encoder above 8 bits", "DER to_der / from_der end to end", "num-bigint", "postgres", "serde human-readable beyond the 8 concrete value/width pairs of c16_serde_human_* (BOUNDED stand-in: text handed to serialize_str and its visit_str round trip)", "ark-ff"],
+        not_decided=["rlp crate encoder above 8 bits", "DER to_der / from_der end to end", "num-bigint", "postgres beyond binary NUMERIC on four concrete values (c16_pg_numeric_*, BOUNDED)", "serde human-readable beyond the 8 concrete value/width pairs of c16_serde_human_* (BOUNDED stand-in: text handed to serialize_str and its visit_str round trip)", "ark-ff"],
     ),
     "C17": dict(
         level="other",
